@@ -1,0 +1,16 @@
+//go:build verif
+
+package eval
+
+import . "github.com/paulsonkoly/chess-3/chess"
+
+// Verification hooks (build tag verif). Add-only.
+
+// VerifSigm exposes the sigmoid table.
+func VerifSigm() []Score { return append([]Score(nil), sigm[:]...) }
+
+// VerifSideOfBoard exposes the sideOfBoard masks.
+func VerifSideOfBoard() [2]BitBoard { return sideOfBoard }
+
+// VerifInsufficientMat exposes insufficientMat.
+var VerifInsufficientMat = insufficientMat
